@@ -41,6 +41,7 @@ pub fn run(tier: Tier) -> i32 {
     rep.assume("'for every input' cannot be enumerated: the table-index x position sweep covers every table entry at every offset and every field boundary; linearity of the register update is an external mathematical fact");
     part_a(&rep, tier);
     part_b(&rep, tier);
+    part_c(&rep);
     rep.finish(true)
 }
 
@@ -297,4 +298,61 @@ fn part_b(rep: &Report, tier: Tier) {
     });
     let _ = refm::header_fields;
     rep.part(json!({"part":"B wiring","pdu_lengths":format!("0..={}",maxp),"label_kinds":6,"first_buffers":"7..=p+15","next_buffers":[7,8,9,13,64,70000],"via":"encap and encap_ext (one optional extension)"}));
+}
+
+/// C: hand-built trains on the receiver side, conformant and with an inconsistent total length:
+/// whenever the receiver calls the CRC calculator for a train, the label argument must be empty
+/// exactly when the first fragment used label re-use, the label bytes otherwise, and the other
+/// arguments must be the received total length, the protocol type and the reassembled bytes.
+fn part_c(rep: &Report) {
+    use crate::refm::Desc;
+    let mut acc = Acc::default();
+    let x = [0x11u8, 0x12, 0x13, 0x14, 0x15, 0x16];
+    for (first_label, prime) in [(Lbl::ReUse, Some(L3A)), (Lbl::ReUse, Some(L6A)), (L3A, None), (L6A, None), (Lbl::Bcast, None)] {
+        let resolved = prime.unwrap_or(first_label);
+        for total_counts in [0usize, 3, 6] {
+            for crc_label in [vec![], L3A.bytes(), L6A.bytes()] {
+                let total = (x.len() + 2 + total_counts) as u16;
+                let crc = crc_ref(total, 0x0800, &crc_label, &x);
+                let mut seq: Vec<Vec<u8>> = vec![];
+                if let Some(pl) = prime {
+                    seq.push(Desc::complete(pl, 0x0800, &[0x7A]).print());
+                }
+                seq.push(Desc::first(first_label, 0x0800, 0, total, &x[..2]).print());
+                seq.push(Desc::inter(0, &x[2..4]).print());
+                seq.push(Desc::end(0, &x[4..], crc).print());
+                let rec = RecCrc::new();
+                let mut rx = RxS::new(2, 8, &[8, 8, 8]).build(rec.clone(), TableMgr::none());
+                let mut last = DecapOut::Padding { consumed: 0 };
+                for p in &seq {
+                    last = do_decap(&mut rx, p);
+                    if let DecapOut::Completed { buf, .. } = &last {
+                        let _ = rx.provision_storage(vec![0u8; buf.len()].into_boxed_slice());
+                    }
+                }
+                acc.states += 1;
+                acc.transitions += seq.len() as u64;
+                acc.calls += seq.len() as u64;
+                acc.compared += 1;
+                let want_label: Vec<u8> = if first_label == Lbl::ReUse { vec![] } else { first_label.bytes() };
+                let conformant = total_counts == want_label.len() && crc_label == want_label;
+                acc.outcome(&format!("C:{}:{}", if conformant { "conformant" } else { "crafted" }, last.class()));
+                let wit = || json!({"first_fragment_label": first_label.short(), "receiver_label_memory": prime.map(|l| l.short()), "total_length": total, "trailer_is_crc_over_label": hex(&crc_label), "packets": seq.iter().map(|p| hex(p)).collect::<Vec<_>>(), "outcome": last.brief()});
+                for c in rec.take() {
+                    if c.label != want_label || c.total != total || c.pt != 0x0800 || c.pdu != x {
+                        rep.violation(&format!("C12|receiver|crc-arguments|{}", if first_label == Lbl::ReUse { "reuse" } else { "explicit" }), total_counts as u64, || (format!("decap recomputed the CRC over (total_len {}, pt {:#06x}, label {}, {} PDU bytes); the first fragment {} so the label argument must be {} and the other arguments the received total length {}, protocol type 0x0800 and the 6 reassembled bytes", c.total, c.pt, hex(&c.label), c.pdu.len(), if first_label == Lbl::ReUse { "used label re-use" } else { "carried its label" }, if want_label.is_empty() { "empty".to_string() } else { hex(&want_label) }, total), wit()));
+                    }
+                }
+                if conformant {
+                    if !matches!(&last, DecapOut::Completed { meta, .. } if meta.label == resolved) {
+                        rep.violation(&format!("C12|receiver|conformant-train-not-delivered|{}", last.class()), 0, || (format!("a conformant hand-built train is not delivered with label {}: {}", resolved.short(), last.brief()), wit()));
+                    }
+                } else if matches!(last, DecapOut::Completed { .. }) {
+                    rep.violation("C12|receiver|crafted-train-delivered", total_counts as u64, || (format!("a train whose total length / trailer do not correspond to the label as written is delivered: {}", last.brief()), wit()));
+                }
+            }
+        }
+    }
+    rep.merge(acc);
+    rep.part(json!({"part":"C receiver-side hand-built trains","first_fragment_labels":5,"total_length_variants":3,"trailer_variants":3}));
 }
